@@ -11,7 +11,9 @@
 (* of characters).                                                            *)
 (* Events (arguments + observations made on the real object):               *)
 (*   [a |-> "construct", ok, err]        SuperNet(model, ...) itself           *)
-(*   [a |-> "alpha", b, vals]            coefficients of block b (0-based)   *)
+(*   [a |-> "alpha", b, vals, how]       coefficients of block b (0-based),  *)
+(*                                       written by copy_ / .data = / load_state_dict / optimizer step *)
+(*   [a |-> "fork"] [a |-> "oalpha" | "ohard" | "ofwd" | "omode", ...]  deep copy; calls on the original *)
 (*   [a |-> "hard", v] [a |-> "temp", t100] [a |-> "mode", training]         *)
 (*   [a |-> "fwd" | "summary", training, theta, exact, ...]                  *)
 (*   [a |-> "cost", metric, full, training, theta, exact, finite, cost10,    *)
@@ -135,9 +137,13 @@ CostVerdict(net, st, e, i) ==
         IF f23 THEN Known(F23Text)
         ELSE Viol(at \o "Mix: observed 10^4*cost " \o ToString(obs) \o " expected " \o ToString(ref)
                      \o " +- " \o ToString(tol) \o " theta " \o ToString(e.theta) \o NameDiag(m, net, e, obs, tol))
-    ELSE IF IsProb(e.theta) /\ ~(/\ DD * MinCost(m, net, e.full) - tol <= obs
-                                 /\ obs <= DD * MaxCost(m, net, e.full) + tol)
-        THEN Viol(at \o "Bounds: cost outside [cheapest, most expensive] selection")
+    \* unconditional: SuperNet.__init__ already samples once, so whatever is stored must weight the branches
+    \* like a selection (a one-branch block costs its branch whatever its coefficient)
+    ELSE IF ~(/\ DD * MinCost(m, net, e.full) - tol <= obs
+              /\ obs <= DD * MaxCost(m, net, e.full) + tol)
+        THEN Viol(at \o "Bounds: 10^4*cost " \o ToString(obs) \o " outside [cheapest, most expensive] selection ["
+                     \o ToString(DD * MinCost(m, net, e.full)) \o ", " \o ToString(DD * MaxCost(m, net, e.full))
+                     \o "] theta " \o ToString(e.theta))
     ELSE IF hardsel /\ NoTie(st.alpha) /\ obs # DD * ExportCost(m, net, aw, e.full) THEN
         IF f23h THEN Known(F23Text)
         ELSE Viol(at \o "HardIsArgmax: hard selection but 10^4*cost " \o ToString(obs)
@@ -184,6 +190,9 @@ Walk(prop, net, ev, i, st) ==
             IF e.ok THEN Walk(prop, net, ev, i + 1, st)
             ELSE IF ReservedClash(FixedNames(net)) THEN "ok"
             ELSE prop \o " event " \o ToString(i) \o ": SuperNet(...) raised " \o e.err
+      \* two objects: "fork" = the driver deep-copied the SuperNet and goes on with the COPY; o* events were
+      \* applied to the ORIGINAL.  The reference model keeps the copy's state: none of them changes it.
+      [] e.a \in {"fork", "oalpha", "ohard", "ofwd", "omode"} -> Walk(prop, net, ev, i + 1, st)
       [] e.a = "summary" ->      \* an observer since plinio commit ba220ec: it neither samples nor stores coefficients
             Walk(prop, net, ev, i + 1, st)
       [] e.a = "cost" ->
